@@ -289,13 +289,25 @@ creationDateLoop:
 		glyphs[string(name)] = glyph
 	}
 
+	// The base and the accent of a composite must be ordinary glyphs: a
+	// composite built from composites could double its outline at every
+	// level, so that a font of a few hundred bytes needs gigabytes of memory.
+	isComposite := make(map[string]bool, len(ctx.seacs))
+	for _, seac := range ctx.seacs {
+		isComposite[seac.name] = true
+	}
 	for _, seac := range ctx.seacs {
 		// the character codes of seac refer to the standard encoding, whatever encoding the font has
 		if seac.base < 0 || seac.base > 255 || seac.accent < 0 || seac.accent > 255 {
 			continue
 		}
-		base := glyphs[psenc.StandardEncoding[seac.base]]
-		accent := glyphs[psenc.StandardEncoding[seac.accent]]
+		baseName := psenc.StandardEncoding[seac.base]
+		accentName := psenc.StandardEncoding[seac.accent]
+		if isComposite[baseName] || isComposite[accentName] {
+			continue
+		}
+		base := glyphs[baseName]
+		accent := glyphs[accentName]
 		if base == nil || accent == nil {
 			continue
 		}
